@@ -198,6 +198,7 @@ type Engine struct {
 	authzStats *authzStats
 	Trace []string // human readable log for replay output
 	KeepTrace bool
+	Baseline map[wamp.URI]router.VerifSizes // H1 snapshot right after start
 }
 
 func NewEngine(c *Case) *Engine {
@@ -265,6 +266,7 @@ func (e *Engine) Start() error {
 		e.Sess = append(e.Sess, s)
 	}
 	synctest.Wait()
+	e.Baseline = router.VerifSnapshot(r)
 	return nil
 }
 
